@@ -36,6 +36,9 @@ PURE_FOREIGN = [
     r'^<std::boxed::Box<T, A> as std::ops::Drop>::drop$',     # frees the allocation of a moved-out box
     r'^std::cmp::PartialEq::(eq|ne)$',
     r'^std::cmp::PartialOrd::(lt|le|gt|ge|partial_cmp)$',
+    r'^std::cmp::Ord::cmp$',           # on scalars / generic keys (the SweepEvent impl is a local body)
+    r'^<f(32|64) as std::cmp::PartialOrd>::partial_cmp$',
+    r'^std::cmp::Ordering::(is_gt|is_lt|is_ge|is_le|is_eq|is_ne|reverse)$',
     r'^<geo_types::Coord<T> as std::cmp::PartialEq>::(eq|ne)$',
     r'^std::ops::(Add|Sub|Mul|Div|Neg)::(add|sub|mul|div|neg)$',
     r'^num_traits::(Zero::zero|One::one|Float::(min|max|infinity|neg_infinity|abs))$',
@@ -64,8 +67,9 @@ FUNCTIONAL = [re.compile(p) for p in [
 
 
 # std higher-order functions that do nothing but (possibly) call the closure they are given: read-only iff that closure is
-HOF_PURE = re.compile(r'^std::option::Option::<T>::(map|map_or|map_or_else|and_then|is_some_and|is_none_or|unwrap_or_else|unwrap_or|'
-                      r'unwrap_or_default|filter|or_else)$')
+HOF_PURE = re.compile(r'^(std::option::Option::<T>::(map|map_or|map_or_else|and_then|is_some_and|is_none_or|unwrap_or_else|unwrap_or|'
+                      r'unwrap_or_default|filter|or_else|zip|or|and|xor)|std::bool::<impl bool>::(then|then_some)|'
+                      r'std::cmp::Ordering::(then_with|then))$')
 
 
 def closure_children(facts, caller, term):
